@@ -95,8 +95,9 @@ class WsgiOutput(Scenario):
         muts = []
         for _ in range(rng.choice([0, 1, 2, 4, 8])):
             op = rng.choice(["add", "add", "add_header", "set", "setlist", "extend_list", "extend_dict", "update_dict", "update_list", "setdefault", "setlistdefault", "setitem", "setitem_int", "setitem_slice", "add_kw", "set_kw", "remove", "ior"])
-            bad = rng.random() < 0.25
-            muts.append([op, rng.choice(KEYS), rng.choice(VALUES_BAD) if bad else rng.choice(VALUES_OK), rng.choice(VALUES_BAD) if bad and rng.random() < 0.3 else rng.choice(VALUES_OK), rng.randrange(4)])
+            # either value may carry the CR/LF, independently: the second one is a keyword parameter or a later list item
+            bad1, bad2 = rng.random() < 0.2, rng.random() < 0.12
+            muts.append([op, rng.choice(KEYS), rng.choice(VALUES_BAD) if bad1 else rng.choice(VALUES_OK), rng.choice(VALUES_BAD) if bad2 else rng.choice(VALUES_OK), rng.randrange(4)])
         status_code = rng.choice(STATUSES)
         return {
             "shape": shape,
@@ -119,6 +120,10 @@ class WsgiOutput(Scenario):
             "file_tape": [rng.choice([0, 1, 3]) for _ in range(10)],
             "tape": [rng.randrange(0, 8) for _ in range(4)],
             "via_call": rng.random() < 0.4,
+            # a callback registered after the response was handed to the server but before the server closes it
+            "late_callbacks": rng.choice([0, 0, 0, 1, 2]),
+            # the same response object answers a second request (a module-level response used as a WSGI application)
+            "reuse": rng.random() < 0.2,
         }
 
     # ------------------------------------------------------------------
@@ -358,6 +363,11 @@ class WsgiOutput(Scenario):
         except Exception as e:  # noqa: BLE001
             out.violate(f"{pre}/get_wsgi_response-raises/{type(e).__name__}/{tag}", f"{type(e).__name__}: {e}")
             return
+        for _ in range(max(0, min(3, int(case.get("late_callbacks", 0) or 0)))):
+            late = Spy()
+            resp.call_on_close(late)
+            facts["spies"].append(late)
+            out.probe("callback_registered_after_call")
         # ---- headers and status ---------------------------------------------------
         if not isinstance(status, str) or not status[:3].isdigit() or int(status[:3]) != code:
             out.violate(f"{pre}/status-line-wrong/{tag}", f"status {status!r} for code {code}")
@@ -460,6 +470,17 @@ class WsgiOutput(Scenario):
                 self.serve(case, resp, facts, ap, out, tr, pre)
             except (BodyFailure, RuntimeError) as e:
                 out.violate(f"{pre}/unexpected-body-failure", f"{type(e).__name__}: {e}")
+            if not out.violations and case.get("reuse") and facts["shape"] in ("str", "bytes", "list", "tuple", "none") and not facts.get("app_consumed_failed"):
+                # second request answered by the same object: its close runs the callbacks and the iterable's close again
+                for s_ in facts["spies"]:
+                    s_.n = 0
+                out.probe("response_object_served_twice")
+                try:
+                    self.serve(case, resp, facts, ap, out, tr, pre)
+                except (BodyFailure, RuntimeError) as e:
+                    out.violate(f"{pre}/unexpected-body-failure", f"{type(e).__name__}: {e}")
+                if out.violations:
+                    out.violations[:] = [(c + "/second-request", m) for c, m in out.violations]
             if out.violations:
                 out.extra["narrow"] = ap
                 break
